@@ -73,7 +73,7 @@ def records(stream):
 def parse_keylog(text):
     kl = {}
     for line in text.replace("\r", "").split("\n"):
-        p = line.split(" ")
+        p = line.split()
         if len(p) == 3 and len(p[1]) == 64:
             try:
                 kl.setdefault(bytes.fromhex(p[1]), {})[p[0]] = bytes.fromhex(p[2])
